@@ -369,13 +369,28 @@ MACHINES = {  # fallback only: substrings of core::any::type_name of the Machine
 X86_NAMES = {}  # type names of the x86 machines as the tree under test spells them (reported by the probe)
 
 
+LEVEL = {"generic": 0, "sse2": 1, "ssse3": 2, "sse41": 3, "avx": 3, "avx2": 4}  # SSE4.1 and AVX machines are one type
+
+
+def host_level():
+    try:
+        flags = open("/proc/cpuinfo").read().split("flags", 1)[1].split("\n", 1)[0].split()
+    except Exception:
+        return "avx2"
+    for name, flag in (("avx2", "avx2"), ("avx", "avx"), ("sse41", "sse4_1"), ("ssse3", "ssse3")):
+        if flag in flags:
+            return name
+    return "sse2"
+
+
 def expected_machine(features, rustflags, forced):
+    """the most capable back end this configuration is allowed to run"""
     if any(f in features for f in ("ppv_no_simd", "chacha_no_simd")):
         return "generic"
     if forced:
         return BACKEND_NAMES[forced]
     if "std" in features:
-        return "avx2"  # CPUID dispatch on this host
+        return host_level()  # CPUID dispatch
     for name in ("avx2", "avx", "sse4.1", "ssse3"):
         if "+" + name in rustflags:
             return {"sse4.1": "sse41"}.get(name, name)
@@ -387,22 +402,45 @@ def _strip_ni(t):
     return re.sub(r"[A-Za-z0-9_:]*(YesNI|NoNI)", "NI", t)
 
 
+def machine_level(got, names):
+    """level of a reported Machine type name; None if it is none of the x86 machines"""
+    best = None
+    for k, v in names.items():
+        if _strip_ni(v) == _strip_ni(got):
+            best = max(best or 0, LEVEL[k])
+    if best is None and not names:
+        for k in ("avx2", "sse41", "ssse3", "sse2"):  # fallback: hard-coded substrings
+            if MACHINES[k] in got:
+                return LEVEL[k]
+    return best
+
+
 def machine_violation(prefix, point, r, features, rustflags, forced, viol):
-    """the configuration must really run the implementation it is meant to select"""
+    """Implementation-selection oracle: a configuration must not run a back end it does not permit.
+
+    no_simd -> the portable machine and nothing else; otherwise every dispatch macro (dispatch!,
+    dispatch_light128!, dispatch_light256!) must hand out an x86 machine whose level does not exceed what
+    the point allows (forced arm / compile-time target features / this host's CPUID level). Handing out a
+    LESS capable machine is slower, not wrong, and is not reported.
+    """
     want = expected_machine(features, rustflags, forced)
-    got = r.get("machine", "")
     if r.get("machine_names"):
         X86_NAMES.update(r["machine_names"])
-    if not got:
-        return
-    if want == "generic":
-        wrong = _strip_ni(got) in [_strip_ni(v) for v in X86_NAMES.values()] if X86_NAMES else MACHINES["generic"] not in got
-    elif r.get("machine_names"):
-        wrong = _strip_ni(got) != _strip_ni(r["machine_names"][want])
-    else:
-        wrong = MACHINES[want] not in got
-    if wrong:
-        viol.append(dict(sig="%s:%s:selects-wrong-implementation" % (prefix, point), detail="this configuration is meant to run the %s implementation but the dispatch macros hand out %s" % (want, got), replay=dict(point=point, features=features), count=1))
+    names = r.get("machine_names") or X86_NAMES
+    for macro, key in (("dispatch!", "machine"), ("dispatch_light128!", "machine_light128"), ("dispatch_light256!", "machine_light256")):
+        got = r.get(key, "")
+        if not got:
+            continue
+        lvl = machine_level(got, names)
+        if want == "generic":
+            wrong = lvl is not None if names else MACHINES["generic"] not in got
+            why = "is meant to run the portable implementation"
+        else:
+            wrong = lvl is not None and lvl > LEVEL[want]
+            why = "permits nothing beyond the %s back end" % want
+        if wrong:
+            viol.append(dict(sig="%s:%s:selects-wrong-implementation" % (prefix, point), detail="this configuration %s but %s hands out %s" % (why, macro, got), replay=dict(point=point, features=features, macro=macro), count=1))
+            return
 
 
 def probe_violations(prefix, point, r, ref_fp, viol):
@@ -453,9 +491,9 @@ def plan_c03(tier):
                 cases = r["cases"]
                 if f and r["taken"][f] == 0:
                     raise Machinery("hook H1: forced backend %d was never dispatched" % f)
-            points.append(dict(point=point, machine=r.get("machine"), cases=r.get("cases"), fingerprint=r.get("fingerprint"), mismatches=r.get("n_mismatches"), panics=r.get("n_panics"), forced_dispatch_hits=(r.get("taken") or [None] * 6)[f] if f else None))
+            points.append(dict(point=point, machine=r.get("machine"), machine_light128=r.get("machine_light128"), machine_light256=r.get("machine_light256"), cases=r.get("cases"), fingerprint=r.get("fingerprint"), mismatches=r.get("n_mismatches"), panics=r.get("n_panics"), forced_dispatch_hits=(r.get("taken") or [None] * 6)[f] if f else None))
     res = dict(config="lattice", evaluations=total, distinct_nontrivial=cases, exhaustive=True, violations=viol, wall_s=time.time() - t0,
-               rule="configuration lattice enumerated completely (13 points): std dispatch with CPUID and with each of SSE2/SSSE3/SSE4.1/AVX/AVX2 forced through hook H1; no_std compile-time dispatch built with -Ctarget-feature for each of the five arms; no_simd with and without std. In every point the same probe runs all 7 ChaCha types on {k0,k1} x {n0,n1} x position alphabet x length alphabet (buffered / wide / narrow segments, counter carry), BLAKE-224/256/384/512 and JH-224/256/384/512 on every length 0..=3B+2 (thorough 6B+2) and every one-hot one-block message; each output is compared with vref inside the probe, the 13 fingerprints must be equal, and the Machine type the dispatch macros hand out in each point must be the one the point is meant to run. distinct_nontrivial = distinct (algorithm, input) cases per point.",
+               rule="configuration lattice enumerated completely (13 points): std dispatch with CPUID and with each of SSE2/SSSE3/SSE4.1/AVX/AVX2 forced through hook H1; no_std compile-time dispatch built with -Ctarget-feature for each of the five arms; no_simd with and without std. In every point the same probe runs all 7 ChaCha types on {k0,k1} x {n0,n1} x position alphabet x length alphabet (buffered / wide / narrow segments, counter carry), BLAKE-224/256/384/512 and JH-224/256/384/512 on every length 0..=3B+2 (thorough 6B+2) and every one-hot one-block message; each output is compared with vref inside the probe, the 13 fingerprints must be equal, and the Machine type that each of the three dispatch macros (dispatch!, dispatch_light128!, dispatch_light256!) hands out in each point must be the portable one in the no_simd points and otherwise must not exceed the back end the point permits (forced arm, compile-time target features, this host's CPUID level). distinct_nontrivial = distinct (algorithm, input) cases per point.",
                samples=points[:3] + points[-2:], extra=dict(points=points, reference_fingerprint=ref_fp),
                assumptions=["'SSE2 backend' means the SSE2 instantiation executed on this AVX2 host (identical instructions; target_feature only adds permission)", "the no_std arms are selected by cfg!(target_feature), trusted to follow -Ctarget-feature"])
     return finish("C03", tier, "exploration", [res], t0)
